@@ -338,3 +338,94 @@ Proof.
   { intros H. apply check_row_ok in H as [c [_ [_ [_ ->]]]]. left. reflexivity. }
   destruct (is_nil_t (strip (lower c0))); [|discriminate]. intros H. injection H as <-. auto.
 Qed.
+
+(* ---------- a CID built call by call, refused calls skipped *)
+Fixpoint kept (e : env) (rows : list (list text)) (s : cstate) : list (list text) :=
+  match rows with
+  | [] => []
+  | row :: rest => match row_step e s row with
+                   | ROk s' => row :: kept e rest s'
+                   | _ => kept e rest s
+                   end
+  end.
+
+Lemma kept_length e rows : forall s, (length (kept e rows s) <= length rows)%nat.
+Proof.
+  induction rows as [|r rows IH]; intros s; cbn [kept length]; [lia|].
+  destruct (row_step e s r); [specialize (IH s0)|specialize (IH s)..]; cbn [length]; lia.
+Qed.
+
+Theorem api_steps_as_reading e rows : forall s n s' m, api_steps e rows s n = Some (s', m) ->
+  steps e s (kept e rows s) = ROk s' /\ (m + length (kept e rows s) = n + length rows)%nat.
+Proof.
+  induction rows as [|r rows IH]; intros s n s' m H; cbn [api_steps kept] in *.
+  - injection H as <- <-. cbn. split; [reflexivity|lia].
+  - destruct (row_step e s r) as [s1| | |] eqn:E; try discriminate.
+    + cbn [steps length]. rewrite E. apply IH in H as [H1 H2]. split; [exact H1|lia].
+    + apply IH in H as [H1 H2]. split; [exact H1|]. cbn [length]. lia.
+Qed.
+
+Theorem api_steps_preserve_inv e rows s n s' m : api_steps e rows s n = Some (s', m) -> Inv s -> Inv s'.
+Proof. intros H I. apply api_steps_as_reading in H as [H _]. eapply steps_preserve_inv; eassumption. Qed.
+
+(* every call is accepted: the calls are exactly Cid.read without its final checks *)
+Lemma api_steps_none_refused e rows : forall s n s', api_steps e rows s n = Some (s', n) -> steps e s rows = ROk s'.
+Proof.
+  intros s n s' H. pose proof (api_steps_as_reading _ _ _ _ _ _ H) as [H1 H2].
+  assert (L : length (kept e rows s) = length rows) by lia. clear H2.
+  assert (K : forall rows s, length (kept e rows s) = length rows -> kept e rows s = rows).
+  { clear. induction rows as [|r rows IH]; intros s L; cbn [kept] in *; [reflexivity|].
+    destruct (row_step e s r) eqn:E; cbn [length] in L.
+    - f_equal. apply IH. lia.
+    - pose proof (kept_length e rows s). lia.
+    - pose proof (kept_length e rows s). lia.
+    - pose proof (kept_length e rows s). lia. }
+  rewrite (K _ _ L) in H1. exact H1.
+Qed.
+
+(* ---------- lookups by name agree with the declaration order *)
+Lemma index_of_nth names : NoDup names -> forall i d, (i < length names)%nat -> index_of (nth i names d) names = Some i.
+Proof.
+  induction 1 as [|x l Hx ND IH]; intros i d Hi; [cbn in Hi; lia|].
+  destruct i as [|i]; cbn [nth index_of].
+  - rewrite text_eqb_refl. reflexivity.
+  - cbn [length] in Hi. assert (Hi' : (i < length l)%nat) by lia.
+    destruct (text_eqb x (nth i l d)) eqn:E.
+    + apply text_eqb_eq in E. exfalso. apply Hx. rewrite E. apply nth_In. exact Hi'.
+    + rewrite (IH i d Hi'). reflexivity.
+Qed.
+Lemma index_of_some n names i : index_of n names = Some i -> nth_error names i = Some n.
+Proof.
+  revert i. induction names as [|x l IH]; intros i H; cbn [index_of] in H; [discriminate|].
+  destruct (text_eqb x n) eqn:E.
+  - injection H as <-. apply text_eqb_eq in E. subst. reflexivity.
+  - destruct (index_of n l) as [j|] eqn:J; [|discriminate]. injection H as <-. cbn [nth_error]. apply IH. reflexivity.
+Qed.
+Lemma index_of_none n names : index_of n names = None <-> ~ In n names.
+Proof.
+  induction names as [|x l IH]; cbn [index_of In]; [tauto|].
+  destruct (text_eqb x n) eqn:E.
+  - apply text_eqb_eq in E. split; [discriminate|]. intros H. exfalso. apply H. left. exact E.
+  - apply text_eqb_neq in E. destruct (index_of n l) as [j|]; cbn [option_map].
+    + split; [discriminate|]. intros H. exfalso. assert (N : ~ In n l) by tauto. apply IH in N. discriminate.
+    + split; [|reflexivity]. intros _ [H|H]; [congruence|]. revert H. apply IH. reflexivity.
+Qed.
+
+Theorem lookup_follows_declaration_order e rows s : cid_read e rows = CidOk s ->
+  forall i f, nth_error (st_fields s) i = Some f -> field_index s (fs_name f) = Some i.
+Proof.
+  intros H i f Hf. apply accepted_cid_is_sound in H as [_ [_ [ND _]]].
+  unfold field_index. assert (Hi : (i < length (map fs_name (st_fields s)))%nat).
+  { rewrite map_length. apply nth_error_Some. congruence. }
+  assert (E : nth i (map fs_name (st_fields s)) [] = fs_name f).
+  { apply nth_error_nth with (d := f) in Hf. transitivity (nth i (map fs_name (st_fields s)) (fs_name f)); [apply nth_indep; exact Hi|].
+    rewrite (map_nth fs_name). rewrite Hf. reflexivity. }
+  rewrite <- E. apply index_of_nth; assumption.
+Qed.
+Theorem value_lookup_is_positional e rows s row i f : cid_read e rows = CidOk s -> length row = length (st_fields s) ->
+  nth_error (st_fields s) i = Some f -> field_value_for s (fs_name f) row = nth_error row i.
+Proof.
+  intros H L Hf. unfold field_value_for. rewrite L, Nat.eqb_refl. rewrite (lookup_follows_declaration_order _ _ _ H _ _ Hf). reflexivity.
+Qed.
+Theorem unknown_name_has_no_index s n : field_index s n = None <-> ~ In n (map fs_name (st_fields s)).
+Proof. apply index_of_none. Qed.
